@@ -66,6 +66,18 @@ def cdist_rewrite(t):
                 continue
             kws.append((k, v))
         return ("call", t[1], t[2], tuple(kws))
+    # a cdist matrix is two-dimensional, of shape (len(first collection), len(second collection))
+    def _cd(m):
+        m = strip(m)
+        if head(m) == "call" and len(m[2]) == 2 and not m[3]:
+            f_ = strip(m[1])
+            if (head(f_) == "attr" and f_[2] == "calc_cdist_matrix") or f_ == ("glob", "rapidfuzz.process.cdist"):
+                return m
+        return None
+    if head(t) == "attr" and t[2] == "ndim" and _cd(t[1]) is not None:
+        return const(2)
+    if head(t) == "sub" and head(strip(t[1])) == "attr" and strip(t[1])[2] == "shape" and is_const(strip(t[2])) and strip(t[2])[2] in (0, 1) and _cd(strip(t[1])[1]) is not None:
+        return ("call", ("glob", "builtins.len"), (_cd(strip(t[1])[1])[2][strip(t[2])[2]],), ())
     # M[numpy.triu_indices(M.shape[0], k=1)] is the row-major strict upper triangle == squareform(M, checks=False)
     if head(t) == "sub":
         M, ix = strip(t[1]), strip(t[2])
@@ -85,7 +97,10 @@ def cdist_rewrite(t):
             n = tri[2][0] if tri[2] else args.get("n")
             k = tri[2][1] if len(tri[2]) > 1 else args.get("k")
             shape0 = ("sub", ("attr", M, "shape"), const(0))
-            if n is not None and k is not None and is_const(strip(k), 1) and strip_all(n) in (strip_all(shape0), ("call", ("glob", "builtins.len"), (M,), ())) and len(tri[2]) + len(tri[3]) == 2:
+            sizes = [strip_all(shape0), strip_all(("call", ("glob", "builtins.len"), (M,), ()))]
+            if _cd(M) is not None:
+                sizes.append(strip_all(("call", ("glob", "builtins.len"), (_cd(M)[2][0],), ())))
+            if n is not None and k is not None and is_const(strip(k), 1) and strip_all(n) in sizes and len(tri[2]) + len(tri[3]) == 2:
                 return ("call", ("glob", "scipy.spatial.distance.squareform"), (), (("X", t[1]), ("checks", FALSE)))
     return t
 
